@@ -55,15 +55,14 @@ def potrfCall (uplo : Filling) (A : View) : PotrfCall :=
   if A.stride0 = 1 then potrfIter uplo.flip A.rotated else potrfIter uplo A
 def potrfAsserts (A : View) : Bool :=
   if A.stride0 = 1 then potrfIterAsserts A.rotated else potrfIterAsserts A
-/-- ... and the view it returns: `A({0, r}, {0, r})` in the `stride(A) == 1` branch, `A({0, r})` (all columns) otherwise,
-    `r = distance(begin, last)` -/
+/-- ... and the view it returns: `A({0, r}, {0, r})` in both branches (potrf.hpp:52, 58), `r = distance(begin, last)` -/
 def potrfResult (A : View) (info : Int) : View :=
   if A.stride0 = 1 then
     let r := potrfOrder A.rotated.size info
     A.paren [Arg.rng 0 r, Arg.rng 0 r]
   else
     let r := potrfOrder A.size info
-    A.paren [Arg.rng 0 r]
+    A.paren [Arg.rng 0 r, Arg.rng 0 r]
 
 /-! ### geqrf -/
 
@@ -79,8 +78,8 @@ deriving DecidableEq, Repr, Inhabited
 /-- `geqrf(aa, tau, alloc)` geqrf.hpp:38-70: `dgeqrf_(size(~aa), size(aa), aa.base(), aa.stride(), tau.base(), …)`, twice
     (workspace query with lwork = −1, then the computation) -/
 def geqrfCall (aa tau : View) : GeqrfCall := ⟨aa.size1, aa.size, aa.base, aa.stride0, tau.base⟩
-/-- `assert(size(tau) == min(size(~aa), size(aa)))`; `assert(stride(~aa) == 1)` is COMMENTED OUT in the source (line 40) -/
-def geqrfAsserts (aa tau : View) : Bool := tau.size == min aa.size1 aa.size
+/-- `assert((~aa).stride() == 1)` (line 40), `assert(size(tau) == min(size(~aa), size(aa)))` -/
+def geqrfAsserts (aa tau : View) : Bool := aa.stride1 == 1 && tau.size == min aa.size1 aa.size
 
 /-! ### gesvd -/
 
